@@ -10,6 +10,7 @@
 mod text;
 mod codec;
 mod engine;
+mod client;
 
 use std::panic::{catch_unwind, AssertUnwindSafe};
 
@@ -17,6 +18,7 @@ use std::panic::{catch_unwind, AssertUnwindSafe};
 pub struct Session {
     alias: codec::AliasSession,
     engine: engine::EngineSession,
+    client: client::ClientSession,
 }
 
 impl Default for Session {
@@ -38,7 +40,7 @@ fn split_request(line: &str) -> (&str, &str, &str) {
 impl Session {
     /// Creates an empty session.
     pub fn new() -> Session {
-        Session { alias: codec::AliasSession::new(), engine: engine::EngineSession::new() }
+        Session { alias: codec::AliasSession::new(), engine: engine::EngineSession::new(), client: client::ClientSession::new() }
     }
 
     /// Silences the default panic hook (panics are reported in-band).
@@ -61,6 +63,7 @@ impl Session {
             "roundtrip" => Ok(text::print_packet(&text::parse_packet(payload)?)),
             v if v.starts_with("alias.") => codec::cmd_alias(&mut self.alias, v, head),
             v if v.starts_with("eng.") => self.engine.dispatch(v, head, payload),
+            v if v.starts_with("cli.") => self.client.dispatch(v, head, payload),
             _ => Err(format!("unknown verb {}", verb)),
         }
     }
